@@ -156,6 +156,11 @@ class Loop:
         activations = self._activations
         while activations:
             now, pending = activations.pop()
+            # time only advances to points at which there is something to run:
+            # activations revoked in the meantime (e.g. of aborted activities)
+            # must not move the clock past the end of the simulation
+            if not any(pending):
+                continue
             self.time = now
             self.turn = 0
             self._pending = pending
